@@ -59,6 +59,9 @@ def run(ctx, rep):
 def _replies(ctx, rep, stub):
     scs, metas = [], []
     bodies = list(BODIES)
+    # one extra character in front of / behind the accepted form (what is stripped is double quotes, nothing else)
+    for ch in 'xTe\'1{[-':
+        bodies += [ch + 'True', 'True' + ch, ch + '"True"', '"True"' + ch, '"' + ch + 'True"']
     for _ in range(ctx.n(300, 20000)):
         n = ctx.rng.randint(0, 8)
         bodies.append(''.join(ctx.rng.choice('"True\' \n\ttrueTRUE1') for _ in range(n)))
